@@ -585,7 +585,7 @@ func (check *Checker) declStmt(decl ast.Decl) {
 			switch s := spec.(type) {
 			case *ast.ValueSpec:
 				switch d.Tok {
-				case token.CONST:
+				case token.CONST, token.Zh_常量:
 					top := len(check.delayed)
 
 					// determine which init exprs to use
